@@ -1,13 +1,20 @@
 use syn::fold::{self, Fold};
 use syn::punctuated::Punctuated;
 use syn::{
-    FnArg, ImplItemFn, ItemImpl, ItemTrait, PatType, Path, Receiver, Signature, Token, TraitItemFn,
+    Attribute, FnArg, ImplItemFn, ItemImpl, ItemTrait, PatType, Path, Receiver, Signature, Token, TraitItemFn,
 };
 
 use crate::parser::SylviaAttribute;
 
 /// Utility for stripping all attributes from input before it is emitted
 pub struct StripInput;
+
+/// Checks if the method is a message handler, i.e. it is marked with the `sv::msg` attribute.
+fn is_msg_handler(attrs: &[Attribute]) -> bool {
+    attrs
+        .iter()
+        .any(|attr| SylviaAttribute::new(attr) == Some(SylviaAttribute::Msg))
+}
 
 fn remove_input_attr(inputs: Punctuated<FnArg, Token![,]>) -> Punctuated<FnArg, Token![,]> {
     inputs
@@ -34,25 +41,33 @@ fn remove_input_attr(inputs: Punctuated<FnArg, Token![,]>) -> Punctuated<FnArg, 
 
 impl Fold for StripInput {
     fn fold_trait_item_fn(&mut self, i: TraitItemFn) -> TraitItemFn {
+        // Attributes of the parameters are forwarded to the generated messages and have
+        // to be removed from the handlers. Other methods have to be left untouched.
+        let inputs = match is_msg_handler(&i.attrs) {
+            true => remove_input_attr(i.sig.inputs),
+            false => i.sig.inputs,
+        };
         let attrs = i
             .attrs
             .into_iter()
             .filter(|attr| SylviaAttribute::new(attr).is_none())
             .collect();
 
-        let inputs = remove_input_attr(i.sig.inputs);
         let sig = Signature { inputs, ..i.sig };
         fold::fold_trait_item_fn(self, TraitItemFn { attrs, sig, ..i })
     }
 
     fn fold_impl_item_fn(&mut self, i: ImplItemFn) -> ImplItemFn {
+        let inputs = match is_msg_handler(&i.attrs) {
+            true => remove_input_attr(i.sig.inputs),
+            false => i.sig.inputs,
+        };
         let attrs = i
             .attrs
             .into_iter()
             .filter(|attr| SylviaAttribute::new(attr).is_none())
             .collect();
 
-        let inputs = remove_input_attr(i.sig.inputs);
         let sig = Signature { inputs, ..i.sig };
         fold::fold_impl_item_fn(self, ImplItemFn { attrs, sig, ..i })
     }
